@@ -2,6 +2,7 @@
  * Driver for spec/Iter.tla (C19): value generators and argument iterators.
  *   create via=desc|values|string|buffer|args|linear|boundary|profile|poly ...
  *          desc=<text, hex encoded by the script writer>   description
+ *          esc=1: in desc ~ ^ $ stand for tab, newline, carriage return
  *          len= a=p,q b=p,q c=p,q                          constructor arguments
  *          grid=p,q,p,q,...                                reference data (poly) as rationals
  *          (buffer/args: segments of desc separated by '|' become
@@ -130,6 +131,14 @@ static void drv_step(struct cmd *c)
 		MPT_INTERFACE(metatype) *m = 0;
 		int r;
 		desc[dl] = 0;
+		if (drv_int(c, "esc", 0)) {   /* white space the specification writes with visible characters */
+			size_t k;
+			for (k = 0; k < dl; k++) {
+				if (desc[k] == '~') desc[k] = '\t';
+				else if (desc[k] == '^') desc[k] = '\n';
+				else if (desc[k] == '$') desc[k] = '\r';
+			}
+		}
 		drv_reset();
 		if (!via) via = "desc";
 		if (!strcmp(via, "desc")) m = mpt_iterator_create(desc);
